@@ -1,0 +1,31 @@
+//go:build verif
+
+/*
+ * Read-only accessors of z.Buffer's private bookkeeping for the /verif harness
+ * (property C11).  Compiled only with `-tags verif`; add-only.
+ */
+
+package z
+
+// VerifBufferState is a copy of the buffer's private size bookkeeping.
+type VerifBufferState struct {
+	Padding       uint64
+	Offset        uint64
+	CurSz         int
+	MaxSz         int
+	BufType       BufferType
+	AutoMmapAfter int
+	BufLen        int // len(b.buf)
+}
+
+func (b *Buffer) VerifState() VerifBufferState {
+	return VerifBufferState{
+		Padding:       b.padding,
+		Offset:        b.offset,
+		CurSz:         b.curSz,
+		MaxSz:         b.maxSz,
+		BufType:       b.bufType,
+		AutoMmapAfter: b.autoMmapAfter,
+		BufLen:        len(b.buf),
+	}
+}
